@@ -52,11 +52,13 @@ def slice(ctx: fw.Ctx) -> fw.Outcome:
         R = gen.render(src, rng, prof, garbage=False)
         present = sorted({(t.inst, t.diff) for t in src.tracks})
         sels = [[], present[:], present[:1], present[1:], [(rng.randrange(10), rng.randrange(4))], present + [(rng.randrange(10), rng.randrange(4))],
-                present[:1] * 2, rng.sample(present, rng.randint(0, len(present)))]
+                present[:1] * 2, rng.sample(present, rng.randint(0, len(present))),
+                # pairs the file lacks written before / between pairs it has
+                [(rng.randrange(10), rng.randrange(4))] + present, [x for k in present for x in ((rng.randrange(10), rng.randrange(4)), k)]]
         full = impl.run_chart(R.text, None)
         reqs.append((R.text, None))
         meta.append(("full", R.text, None, full, None))
-        for sel in rng.sample(sels, 3):
+        for sel in rng.sample(sels, 4):
             x = impl.run_chart(R.text, sel)
             reqs.append((R.text, sel))
             meta.append(("sel", R.text, sel, x, full))
